@@ -20,7 +20,7 @@ EXPLANATION = (
     "__eq__ with a str branch on .value; member values are unique; every non-member path raises or ends in the "
     "documented fallback (Visibility.from_alias -> alias table / UNAVAILABLE) – never an implicit None. The string-or-enum "
     "call sites (Shape, TransformKey, HomogeneousMatrix, LabelConverter, FrameID.from_task, _EvaluationConfigBase) route "
-    "str through the parser and use a member unchanged. set_task* helpers are held to the member/fixed-point laws. "
+    "str through the parser and use a member unchanged, and the decision is made on the type of that very parameter (not of a neighbouring one); `__members__.get(key, default)` is read as a lookup whose default is the non-member outcome. set_task* helpers are held to the member/fixed-point laws and set_task_lists must follow the order of its input (a walk over the enum with a membership test is reported). "
     "Does not decide: Enum metaclass semantics (trusted), behaviour of str.lower/upper on non-ASCII input."
 )
 
